@@ -23,24 +23,58 @@ Definition ev_of (c : nat) (e : ev) : bool := match caller_of e with Some c' => 
 Definition lib_or_proxy (e : ev) : bool := lib_event e || match e with Proxy _ _ _ => true | _ => false end.
 
 (* ================= B. a maximal trace has answered every call ================= *)
-Lemma maximal_trace_all_done n tbl tr s : run (init n tbl) tr = Some s ->
+(* In a reachable state where no library step and no IEnd is possible and no loop is in its shutdown
+   run, every started call on a live loop is answered — or it sits in a timed wait whose deadline
+   dl is still ahead, and then the clock can move to a strictly later tick t <= dl.
+   (The hypothesis "no clock event to a later tick is possible" would make the statement vacuous:
+   once every call is answered the model accepts Adv t for every t >= now.) *)
+Lemma maximal_trace_done_or_timer n tbl tr s : run (init n tbl) tr = Some s ->
   (forall e, lib_or_proxy e = true -> step s e = None) ->
-  (forall t, (now s < t)%N -> step s (Adv t) = None) ->
   (forall i r t, step s (IEnd i r t) = None) ->
   (forall t, lp s t <> LShut) ->
-  forall c cr, getc s c = Some cr -> alive (lp s (cloop cr)) = true -> done_or_unstarted (cpc cr) = true.
+  forall c cr, getc s c = Some cr -> alive (lp s (cloop cr)) = true ->
+    done_or_unstarted (cpc cr) = true
+    \/ exists dl t s', waits_until cr dl /\ (now s < t)%N /\ (t <= dl)%N /\ step s (Adv t) = Some s'.
 Proof.
-  intros H Hlib Hadv Hiend Hshut c cr Hg Ha.
-  destruct (done_or_unstarted (cpc cr)) eqn:Hd; [reflexivity|exfalso].
+  intros H Hlib Hiend Hshut c cr Hg Ha.
+  destruct (done_or_unstarted (cpc cr)) eqn:Hd; [left; reflexivity|right].
+  destruct (run_LInv _ _ _ _ H) as [I LI].
   destruct (no_deadlock_run _ _ _ _ H c cr Hg Ha Hd) as (e & s' & Hs & Hp).
   destruct e; simpl in Hp; try discriminate Hp.
-  all: try (rewrite Hlib in Hs by reflexivity; discriminate Hs).
-  - rewrite Hiend in Hs. discriminate.
-  - destruct (getc s c0) as [cr0|] eqn:Hg0; [|discriminate].
+  all: try (exfalso; rewrite Hlib in Hs by reflexivity; discriminate Hs).
+  - exfalso. rewrite Hiend in Hs. discriminate.
+  - exfalso. destruct (getc s c0) as [cr0|] eqn:Hg0; [|discriminate].
     apply andb_prop in Hp as [_ Hp]. destruct (lp s (cloop cr0)) eqn:Hl; try discriminate.
     exact (Hshut _ Hl).
-  - rewrite Hlib in Hs; [discriminate|]. unfold lib_or_proxy. apply orb_true_r.
-  - apply N.ltb_lt in Hp. rewrite Hadv in Hs by assumption. discriminate.
+  - exfalso. rewrite Hlib in Hs; [discriminate|]. unfold lib_or_proxy. apply orb_true_r.
+  - apply N.ltb_lt in Hp. pose proof Hs as Hs0. apply adv_guard in Hs as (_ & _ & Hb).
+    destruct (Hb c cr Hg) as [_ Hrun].
+    destruct (alive_cases _ Ha) as [Hr | Hr]; [|exfalso; exact (Hshut _ Hr)].
+    destruct (Hrun Hr) as (Hsus & Hcomp & Hw & Hwx).
+    destruct (cpc cr) eqn:Hpc; try discriminate Hsus; try discriminate Hd.
+    + exfalso. pose proof (owner_can_finish_state s I LI c cr e) as Ho.
+      unfold owner_next_enabled in Ho. rewrite Hpc in Ho. rewrite (Hcomp _ _ eq_refl) in Ho.
+      destruct (Ho Hg eq_refl Ha Hr) as [(sx & Hx) _]. rewrite Hiend in Hx. discriminate.
+    + destruct (Hw _ _ eq_refl) as (_ & _ & _ & Hle).
+      exists dl, tick, s'. repeat split; auto. left. eauto.
+    + destruct (Hwx _ _ _ _ _ eq_refl) as (_ & _ & _ & _ & Hle).
+      exists dl, tick, s'. repeat split; auto. right. eauto 10.
+Qed.
+
+(* ... hence, if moreover no caller on a running loop is inside a timed wait, every started call on
+   a live loop is answered *)
+Lemma maximal_trace_all_done n tbl tr s : run (init n tbl) tr = Some s ->
+  (forall e, lib_or_proxy e = true -> step s e = None) ->
+  (forall i r t, step s (IEnd i r t) = None) ->
+  (forall t, lp s t <> LShut) ->
+  (forall c cr, getc s c = Some cr -> lp s (cloop cr) = LRun -> dl_of (cpc cr) = None) ->
+  forall c cr, getc s c = Some cr -> alive (lp s (cloop cr)) = true -> done_or_unstarted (cpc cr) = true.
+Proof.
+  intros H Hlib Hiend Hshut Hnw c cr Hg Ha.
+  destruct (maximal_trace_done_or_timer _ _ _ _ H Hlib Hiend Hshut c cr Hg Ha)
+    as [Hd | (dl & t & s' & Hw & _)]; [exact Hd|exfalso].
+  destruct (alive_cases _ Ha) as [Hr | Hr]; [|exact (Hshut _ Hr)].
+  apply waits_until_dl in Hw. rewrite (Hnw _ _ Hg Hr) in Hw. discriminate.
 Qed.
 
 (* ================= A. bounded work ================= *)
@@ -124,3 +158,421 @@ Proof.
   rewrite (count_run_trace _ _ _ _ H) in HP. unfold lib_of, retries. simpl in HP. lia.
 Qed.
 
+
+(* ---- proxy-resumes split by the proxy's result: answered True (the event was set) / cancelled ---- *)
+Definition px0 (c : nat) (s : state) (e : ev) : bool :=
+  match e with
+  | Get _ c' => (c' =? c) && match getc s c with
+                             | Some cr => match cpc cr with PWaitX _ _ _ (Some 0) _ => true | _ => false end
+                             | None => false
+                             end
+  | _ => false
+  end.
+Definition pxc (c : nat) (s : state) (e : ev) : bool :=
+  match e with
+  | Get _ c' => (c' =? c) && match getc s c with
+                             | Some cr => match cpc cr with PWaitX _ _ _ (Some (S _)) _ => true | _ => false end
+                             | None => false
+                             end
+  | _ => false
+  end.
+Definition proxies0 (c : nat) := count_run (px0 c).
+Definition proxiesC (c : nat) := count_run (pxc c).
+
+Lemma proxy_kind_split c s e : b2n (is_kind RProxy c s e) = b2n (px0 c s e) + b2n (pxc c s e).
+Proof.
+  unfold is_kind. destruct e; try reflexivity. simpl.
+  destruct (c0 =? c); [|reflexivity]. destruct (getc s c) as [cr|]; [|reflexivity].
+  destruct (cpc cr) as [| | | | | | | | | | | | | | ? ? ? xd ?| |]; try reflexivity.
+  - destruct (isset s e); reflexivity.
+  - destruct xd as [[|r]|]; reflexivity.
+Qed.
+
+Lemma proxies_split c s tr : proxies c s tr = proxies0 c s tr + proxiesC c s tr.
+Proof.
+  unfold proxies, proxies0, proxiesC. revert s.
+  induction tr as [|e r IH]; intros s; simpl; [reflexivity|].
+  destruct (step s e) as [s'|]; [|reflexivity]. rewrite IH, proxy_kind_split. lia.
+Qed.
+
+Definition is_proxy_cancel (c : nat) (e : ev) : bool :=
+  match e with Proxy _ c' (S _) => c' =? c | _ => false end.
+Definition n_proxy_cancel (c : nat) := n_ev (is_proxy_cancel c).
+
+(* cancelled-proxy resumes are paid for by the Proxy 1/2 events of that caller *)
+Definition xcanc (p : pc) : nat := match p with PWaitX _ _ _ (Some (S _)) _ => 1 | _ => 0 end.
+Lemma ms_xcanc s cr : xcanc (cpc (mark_started s cr)) = xcanc (cpc cr).
+Proof. apply ms_class. reflexivity. Qed.
+Definition xcancc (c : nat) (s : state) : nat :=
+  match getc s c with Some cr => xcanc (cpc cr) | None => 0 end.
+
+Definition updPC (c : nat) (g : nat * nat) (s : state) (e : ev) : nat * nat :=
+  (fst g + b2n (pxc c s e), snd g + b2n (is_proxy_cancel c e)).
+Definition PPC (c : nat) (g : nat * nat) (s : state) : Prop := fst g + xcancc c s <= snd g.
+
+Lemma probe_xcanc s cr : xcanc (probe_pc s cr) = 0.
+Proof. destruct (probe_pc_cases s cr) as [(v & ->) | ->]; reflexivity. Qed.
+
+Lemma PPC_step c g s e s' : PPC c g s -> step s e = Some s' -> PPC c (updPC c g s e) s'.
+Proof.
+  unfold PPC, updPC, xcancc. destruct g as [k m]. simpl fst. simpl snd.
+  intros P Hs. apply step_trans in Hs as [_ T].
+  destruct (retry_kind c s e) as [kd|] eqn:Hk.
+  - destruct (kind_inv _ _ _ _ _ T Hk) as (t & cr & -> & Hg & -> & Hpre).
+    rewrite (getc_probe _ _ _ Hg). rewrite Hg in P. simpl cpc. rewrite probe_xcanc.
+    simpl. rewrite Nat.eqb_refl, Hg. simpl.
+    destruct kd; simpl in Hpre.
+    + rewrite Hpre in *. simpl in *. lia.
+    + destruct Hpre as (? & ? & Hp & _). rewrite Hp in *. simpl in *. lia.
+    + destruct Hpre as (? & ? & ? & r & ? & Hp). rewrite Hp in *. destruct r; simpl in *; lia.
+    + destruct Hpre as [(? & ? & Hp & _) | (? & ? & ? & ? & Hp & _)]; rewrite Hp in *; simpl in *; lia.
+  - assert (Hx : pxc c s e = false).
+    { destruct e; try reflexivity. simpl in *. destruct (c0 =? c); [|reflexivity].
+      destruct (getc s c) as [cr|]; [|reflexivity]. destruct (cpc cr); try reflexivity; discriminate. }
+    rewrite Hx. simpl b2n at 1. rewrite Nat.add_0_r.
+    tcases T; simpl is_proxy_cancel.
+    all: try (erewrite getc_set_pc by eassumption).
+    all: try (erewrite getc_cancel by eassumption).
+    all: try (erewrite (getc_map _ (mark_started _)) by reflexivity).
+    all: try match goal with |- context [if ?a =? ?b then _ else _] => destruct (Nat.eqb_spec a b); [subst|] end.
+    all: simpl b2n; try lia.
+    all: try match goal with Hg : getc _ _ = Some _ |- _ => rewrite Hg in P end.
+    all: simpl cpc.
+    all: try solve [ unfold getc in *; simpl callers; lia ].
+    all: try solve [ mv_simpl; simpl; lia ].
+    + rewrite H0 in P. destruct r; simpl in *; lia.
+    + destruct (getc s c); simpl; rewrite ?ms_xcanc; lia.
+Qed.
+
+Lemma proxiesC_bound n tbl tr s c : run (init n tbl) tr = Some s ->
+  proxiesC c (init n tbl) tr <= n_proxy_cancel c tr.
+Proof.
+  intros H.
+  assert (HP : PPC c (ghost_run (updPC c) (0, 0) (init n tbl) tr) s).
+  { eapply (ghost_ind (updPC c) (PPC c)); [| apply Inv_init | apply LInv_init | | exact H].
+    - intros g s0 e s1 _ _. apply PPC_step.
+    - unfold PPC, xcancc. simpl fst. simpl snd. destruct (getc (init n tbl) c) as [cr|] eqn:Hg; [|lia].
+      apply init_pc in Hg. rewrite Hg. simpl. lia. }
+  unfold PPC in HP.
+  rewrite (ghost_count (updPC c) fst (pxc c)) in HP by reflexivity.
+  rewrite (ghost_count (updPC c) snd (fun _ e => is_proxy_cancel c e)) in HP by reflexivity.
+  rewrite (count_run_trace _ _ _ _ H) in HP. unfold proxiesC, n_proxy_cancel. simpl in HP. lia.
+Qed.
+
+
+(* ---- wake-ups and True-answered proxy-resumes each consume a distinct set event ---- *)
+Definition wake2_on (c : nat) (s : state) (e : ev) : option nat :=
+  match e with
+  | Get _ c' =>
+      if c' =? c then
+        match getc s c with
+        | Some cr => match cpc cr with
+                     | PWait ev _ => if isset s ev then Some ev else None
+                     | PWaitX _ ev _ (Some 0) _ => Some ev
+                     | _ => None
+                     end
+        | None => None
+        end
+      else None
+  | _ => None
+  end.
+
+Lemma wake2_on_kind c s e :
+  b2n (is_kind RWake c s e) + b2n (px0 c s e) = match wake2_on c s e with Some _ => 1 | None => 0 end.
+Proof.
+  unfold is_kind. destruct e; try reflexivity. simpl.
+  destruct (c0 =? c); [|reflexivity]. destruct (getc s c) as [cr|]; [|reflexivity].
+  destruct (cpc cr) as [| | | | | | | | | | | | | | ? ? ? xd ?| |]; try reflexivity.
+  - destruct (isset s e); reflexivity.
+  - destruct xd as [[|r]|]; reflexivity.
+Qed.
+
+Definition updW2 (c : nat) (W : list nat) (s : state) (e : ev) : list nat :=
+  match wake2_on c s e with Some ev => ev :: W | None => W end.
+
+Definition x0ev (p : pc) : option nat := match p with PWaitX _ ev _ (Some 0) _ => Some ev | _ => None end.
+Lemma ms_x0ev s cr : x0ev (cpc (mark_started s cr)) = x0ev (cpc cr).
+Proof. apply ms_class. reflexivity. Qed.
+
+Record PW2 (c : nat) (W : list nat) (s : state) : Prop := mkPW2 {
+  qwR : RInv s;
+  qw1 : NoDup W;
+  qw2 : forall e, In e W -> isset s e = true;
+  qw3 : forall cr e, getc s c = Some cr -> await_ev (cpc cr) = Some e -> ~ In e W;
+  qw4 : forall cr e, getc s c = Some cr -> x0ev (cpc cr) = Some e -> isset s e = true
+}.
+
+Lemma probe_x0ev s cr : x0ev (probe_pc s cr) = None.
+Proof. destruct (probe_pc_cases s cr) as [(v & ->) | ->]; reflexivity. Qed.
+
+Lemma PW2_step c W s e s' : Inv s -> PW2 c W s -> step s e = Some s' -> PW2 c (updW2 c W s e) s'.
+Proof.
+  intros I [R P1 P2 P3 P4] Hs. pose proof (pres_RInv _ _ _ I R Hs) as R'.
+  apply step_trans in Hs as [_ T]. unfold updW2.
+  destruct (retry_kind c s e) as [kd|] eqn:Hk.
+  - destruct (kind_inv _ _ _ _ _ T Hk) as (t & cr & -> & Hg & -> & Hpre).
+    assert (P3' : forall W', forall cr0 e0,
+               getc (set_pc s c cr (probe_pc s cr)) c = Some cr0 -> await_ev (cpc cr0) = Some e0 -> ~ In e0 W').
+    { intros W' cr0 e0 Hq Ha. rewrite (getc_probe _ _ _ Hg) in Hq. injection Hq as <-. simpl in Ha.
+      rewrite probe_await in Ha. discriminate. }
+    assert (P4' : forall cr0 e0,
+               getc (set_pc s c cr (probe_pc s cr)) c = Some cr0 -> x0ev (cpc cr0) = Some e0 ->
+               isset (set_pc s c cr (probe_pc s cr)) e0 = true).
+    { intros cr0 e0 Hq Ha. rewrite (getc_probe _ _ _ Hg) in Hq. injection Hq as <-. simpl in Ha.
+      rewrite probe_x0ev in Ha. discriminate. }
+    simpl wake2_on. rewrite Nat.eqb_refl, Hg.
+    destruct kd; simpl in Hpre.
+    + rewrite Hpre. constructor; auto; try apply P3'.
+    + destruct Hpre as (ev & dl & Hp & Hs). rewrite Hp, Hs. constructor; auto; try apply P3'.
+      * constructor; auto. eapply P3; eauto. rewrite Hp. reflexivity.
+      * intros x [<- | Hin]; [exact Hs|apply P2; assumption].
+    + destruct Hpre as (l & ev & dl & r & xs & Hp). rewrite Hp.
+      destruct r as [|r]; constructor; auto; try apply P3'.
+      * constructor; auto. eapply P3; eauto. rewrite Hp. reflexivity.
+      * intros x [Hx | Hin]; [|apply P2; assumption]. subst x.
+        change (isset s ev = true). eapply P4; eauto. rewrite Hp. reflexivity.
+    + destruct Hpre as [(ev & dl & Hp & Hs & _) | (l & ev & dl & xs & Hp & _)]; rewrite Hp, ?Hs;
+        constructor; auto; try apply P3'.
+  - assert (Hw : wake2_on c s e = None).
+    { destruct e; try reflexivity. simpl in *. destruct (c0 =? c); [|reflexivity].
+      destruct (getc s c) as [cr|]; [|reflexivity]. destruct (cpc cr); try reflexivity; discriminate. }
+    rewrite Hw. constructor; auto.
+    + intros x Hin. eapply trans_isset_mono; eauto.
+    + pose proof (marker_unset s R) as MU.
+      tcases T; intros cr1 e1 Hg1 Ha1; start_ s; rewrite ?ms_await in *; simpl cpc in *.
+      all: try solve [ eapply P3; eauto ].
+      all: try (rewrite probe_await in Ha1; discriminate Ha1).
+      all: mv_simpl; try discriminate; try (injection Ha1 as <-).
+      all: try solve [ match goal with Hg : getc _ _ = Some ?x, Hp : cpc ?x = _ |- _ =>
+                         eapply P3; [exact Hg|rewrite Hp; reflexivity] end ].
+      intros Hin. apply P2 in Hin. rewrite (MU _ _ _ Hm) in Hin. discriminate.
+    + assert (Mono : forall x, isset s x = true -> isset s' x = true)
+        by (intros; eapply trans_isset_mono; eauto).
+      tcases T; intros cr1 e1 Hg1 Ha1; start_ s; rewrite ?ms_x0ev in *; simpl cpc in *.
+      all: try solve [ eapply Mono; eapply P4; eauto ].
+      all: try (rewrite probe_x0ev in Ha1; discriminate Ha1).
+      all: mv_simpl; try discriminate.
+      destruct r; [|discriminate]. injection Ha1 as <-. apply H1.
+Qed.
+
+Lemma wakes_proxies0_bound n tbl tr s c : run (init n tbl) tr = Some s ->
+  wakes c (init n tbl) tr + proxies0 c (init n tbl) tr <= n_iend tr.
+Proof.
+  intros H.
+  assert (HP : PW2 c (ghost_run (updW2 c) [] (init n tbl) tr) s).
+  { eapply (ghost_ind (updW2 c) (PW2 c)); [| apply Inv_init | apply LInv_init | | exact H].
+    - intros g s0 e s1 I0 _. apply PW2_step. exact I0.
+    - constructor; [apply RInv_init|constructor|contradiction|auto|].
+      intros cr e Hg Hx. apply init_pc in Hg. rewrite Hg in Hx. discriminate. }
+  assert (HI : PI (ghost_run updI 0 (init n tbl) tr) s).
+  { eapply (ghost_ind updI PI); [| apply Inv_init | apply LInv_init | | exact H].
+    - intros g s0 e s1 I0 _. apply PI_step. exact I0.
+    - unfold PI. simpl. clear. induction tbl; simpl; auto. }
+  unfold PI in HI.
+  rewrite (ghost_count updI (fun k => k) (fun _ e => is_iend e)) in HI by reflexivity.
+  rewrite (count_run_trace _ _ _ _ H) in HI.
+  destruct HP as [_ Q1 Q2 _ _].
+  assert (Hlen : forall tr0 g s0, length (ghost_run (updW2 c) g s0 tr0)
+                 = length g + (wakes c s0 tr0 + proxies0 c s0 tr0)).
+  { unfold wakes, proxies0. induction tr0 as [|e r IH]; intros g s0; simpl; [lia|].
+    destruct (step s0 e) as [s1|]; [|lia]. rewrite IH. unfold updW2.
+    pose proof (wake2_on_kind c s0 e) as Hq. destruct (wake2_on c s0 e); simpl; lia. }
+  specialize (Hlen tr [] (init n tbl)). simpl in Hlen.
+  assert (Hle : length (ghost_run (updW2 c) [] (init n tbl) tr) <= cnt isT (evset s)).
+  { apply nodup_cnt; auto. intros i Hi. exists true. split; auto.
+    apply Q2 in Hi. unfold isset in Hi. rewrite <- Hi. apply nth_lget.
+    eapply (lget_neq_lt false). rewrite Hi. discriminate. }
+  unfold n_iend. simpl in *. lia.
+Qed.
+
+
+(* ---- bounded work, per caller ---- *)
+Lemma bounded_work_caller n tbl tr s c : run (init n tbl) tr = Some s ->
+  lib_of c tr <= 11 + 8 * (n_iend tr + n_proxy_cancel c tr + n_close tr + timeouts c (init n tbl) tr)
+  /\ (N.of_nat (timeouts c (init n tbl) tr) * SAFETY <= now s)%N.
+Proof.
+  intros H. split; [|eapply timeouts_cost; eauto].
+  pose proof (work_per_retry _ _ _ _ c H) as Hw.
+  rewrite retry_split, proxies_split in Hw.
+  pose proof (wakes_proxies0_bound _ _ _ _ c H). pose proof (proxiesC_bound _ _ _ _ c H).
+  pose proof (closed_bound _ _ _ _ c H). lia.
+Qed.
+
+(* ---- bounded work, whole trace ---- *)
+Fixpoint sumn (f : nat -> nat) (N : nat) : nat :=
+  match N with 0 => 0 | S M => sumn f M + f M end.
+
+Lemma sumn_le f g N : (forall c, c < N -> f c <= g c) -> sumn f N <= sumn g N.
+Proof. induction N; simpl; intros H; [lia|]. specialize (IHN (fun c Hc => H c (Nat.lt_lt_succ_r _ _ Hc))). specialize (H N). lia. Qed.
+Lemma sumn_add f g N : sumn (fun c => f c + g c) N = sumn f N + sumn g N.
+Proof. induction N; simpl; lia. Qed.
+Lemma sumn_const k N : sumn (fun _ => k) N = N * k.
+Proof. induction N; simpl; lia. Qed.
+Lemma sumn_mul k f N : sumn (fun c => k * f c) N = k * sumn f N.
+Proof. induction N; simpl; lia. Qed.
+Lemma sumn_eqb_le c' N : sumn (fun c => b2n (c' =? c)) N <= 1 /\ (c' < N -> sumn (fun c => b2n (c' =? c)) N = 1)
+                          /\ (N <= c' -> sumn (fun c => b2n (c' =? c)) N = 0).
+Proof.
+  induction N; simpl; [lia|]. destruct IHN as (H1 & H2 & H3).
+  destruct (Nat.eqb_spec c' N); simpl.
+  - subst. rewrite H3 by lia. lia.
+  - repeat split; intros; try lia; try (rewrite H2; lia); try (rewrite H3; lia).
+Qed.
+
+Lemma n_ev_cons p e r : n_ev p (e :: r) = b2n (p e) + n_ev p r.
+Proof. unfold n_ev. simpl. destruct (p e); reflexivity. Qed.
+
+Lemma trans_callers_len s e s' : trans s e s' -> length (callers s') = length (callers s).
+Proof.
+  intros T. tcases T; simpl callers; try reflexivity.
+  all: try (apply length_lset_lt; eapply nth_error_Some_lt; eassumption).
+  apply map_length.
+Qed.
+
+Lemma accepted_caller s e s' c : step s e = Some s' -> caller_of e = Some c -> c < length (callers s).
+Proof.
+  intros Hs Hc. apply step_trans in Hs as [_ T].
+  destruct T; simpl in Hc; try discriminate Hc; try (injection Hc as <-);
+    try (eapply nth_error_Some_lt; eassumption).
+  destruct r; [|discriminate]. injection Hc as <-. eapply nth_error_Some_lt; eassumption.
+Qed.
+
+Lemma n_lib_sum : forall tr s s', run s tr = Some s' ->
+  n_lib tr <= sumn (fun c => lib_of c tr) (length (callers s)).
+Proof.
+  unfold n_lib, lib_of. induction tr as [|e r IH]; intros s s' H; simpl in H.
+  - unfold n_ev. simpl. lia.
+  - destruct (step s e) as [s1|] eqn:Hs; [|discriminate].
+    rewrite n_ev_cons.
+    assert (Hle : sumn (fun c => n_ev (ev_of c) (e :: r)) (length (callers s))
+                  = sumn (fun c => b2n (ev_of c e)) (length (callers s)) + sumn (fun c => n_ev (ev_of c) r) (length (callers s))).
+    { rewrite <- sumn_add. clear. induction (length (callers s)); simpl; [reflexivity|]. rewrite IHn, n_ev_cons. lia. }
+    rewrite Hle. specialize (IH _ _ H).
+    apply step_trans in Hs as Ht. destruct Ht as [_ Ht]. rewrite (trans_callers_len _ _ _ Ht) in IH.
+    assert (b2n (lib_event e) <= sumn (fun c => b2n (ev_of c e)) (length (callers s))); [|lia].
+    unfold lib_event, ev_of. destruct (caller_of e) as [c'|] eqn:Hc; simpl; [|lia].
+    pose proof (accepted_caller _ _ _ _ Hs Hc) as Hlt.
+    destruct (sumn_eqb_le c' (length (callers s))) as (_ & Hq & _). rewrite Hq; auto.
+Qed.
+
+Definition is_proxy_cancel_any (e : ev) : bool := match e with Proxy _ _ (S _) => true | _ => false end.
+Definition n_proxy_cancel_all := n_ev is_proxy_cancel_any.
+Definition total_timeouts (n : nat) (tbl : list (nat * nat)) (tr : list ev) : nat :=
+  sumn (fun c => timeouts c (init n tbl) tr) (length tbl).
+
+Lemma sum_proxy_cancel tr N : sumn (fun c => n_proxy_cancel c tr) N <= n_proxy_cancel_all tr.
+Proof.
+  unfold n_proxy_cancel, n_proxy_cancel_all. induction tr as [|e r IH].
+  - unfold n_ev. simpl. clear. induction N; simpl; lia.
+  - rewrite n_ev_cons.
+    assert (Hq : sumn (fun c => n_ev (is_proxy_cancel c) (e :: r)) N
+                 = sumn (fun c => b2n (is_proxy_cancel c e)) N + sumn (fun c => n_ev (is_proxy_cancel c) r) N).
+    { rewrite <- sumn_add. clear. induction N; simpl; [reflexivity|]. rewrite IHN, n_ev_cons. lia. }
+    rewrite Hq.
+    assert (sumn (fun c => b2n (is_proxy_cancel c e)) N <= b2n (is_proxy_cancel_any e)); [|lia].
+    destruct e; simpl; try (clear; induction N; simpl; lia).
+    destruct r0; simpl; [clear; induction N; simpl; lia|].
+    apply (sumn_eqb_le c N).
+Qed.
+
+(* A. bounded work: the library events of an accepted event list are bounded by the number of
+   callers, the environment events (invocations ending, proxy waits cancelled by a shutdown run,
+   loops closed) and the time-outs — and every time-out of a caller costs 60 virtual seconds *)
+Lemma bounded_work n tbl tr s : run (init n tbl) tr = Some s ->
+  n_lib tr <= length tbl * 11
+              + 8 * (length tbl * (n_iend tr + n_close tr) + n_proxy_cancel_all tr + total_timeouts n tbl tr)
+  /\ forall c, (N.of_nat (timeouts c (init n tbl) tr) * SAFETY <= now s)%N.
+Proof.
+  intros H. split; [|intros c; eapply timeouts_cost; eauto].
+  pose proof (n_lib_sum _ _ _ H) as Hs.
+  replace (length (callers (init n tbl))) with (length tbl) in Hs by (simpl; rewrite map_length; reflexivity).
+  set (N := length tbl) in *.
+  assert (Hb : sumn (fun c => lib_of c tr) N
+               <= sumn (fun c => 11 + 8 * ((n_iend tr + n_close tr) + (n_proxy_cancel c tr + timeouts c (init n tbl) tr))) N).
+  { apply sumn_le. intros c _. destruct (bounded_work_caller _ _ _ _ c H) as [Hc _]. lia. }
+  rewrite sumn_add, sumn_const, sumn_mul, sumn_add, sumn_const, sumn_add in Hb.
+  pose proof (sum_proxy_cancel tr N). unfold total_timeouts. fold N. lia.
+Qed.
+
+(* ================= C. between two environment events ================= *)
+Lemma n_ev_app p l1 l2 : n_ev p (l1 ++ l2) = n_ev p l1 + n_ev p l2.
+Proof. unfold n_ev. rewrite filter_app, app_length. reflexivity. Qed.
+
+Lemma n_ev_none p q l : (forall e, In e l -> q e = true) -> (forall e, q e = true -> p e = false) -> n_ev p l = 0.
+Proof.
+  intros Hq Hp. unfold n_ev. induction l as [|e r IH]; simpl; [reflexivity|].
+  rewrite (Hp e) by (apply Hq; left; reflexivity). apply IH. intros; apply Hq; right; assumption.
+Qed.
+
+Lemma n_ev_all p l : (forall e, In e l -> p e = true) -> n_ev p l = length l.
+Proof.
+  intros Hp. unfold n_ev. induction l as [|e r IH]; simpl; [reflexivity|].
+  rewrite (Hp e) by (left; reflexivity). simpl. rewrite IH; auto. intros; apply Hp; right; assumption.
+Qed.
+
+(* a stretch tr2 of library events only (no environment event, no clock event) after any accepted
+   tr1 is bounded by the environment events of tr1 and the time-outs, each of which costs 60 virtual
+   seconds of the clock — which tr2 does not move; and when the stretch cannot be extended (and the
+   environment owes nothing: no IEnd possible, no shutdown run half-way) every started call on a
+   live loop has been answered or waits for a deadline that is still ahead, to which the clock can move *)
+Lemma finite_work_then_done n tbl tr1 tr2 s : run (init n tbl) (tr1 ++ tr2) = Some s ->
+  (forall e, In e tr2 -> lib_event e = true) ->
+  n_lib tr1 + length tr2 <= length tbl * 11
+      + 8 * (length tbl * (n_iend tr1 + n_close tr1) + n_proxy_cancel_all tr1
+             + total_timeouts n tbl (tr1 ++ tr2))
+  /\ (forall c, (N.of_nat (timeouts c (init n tbl) (tr1 ++ tr2)) * SAFETY <= now s)%N)
+  /\ ((forall e, lib_or_proxy e = true -> step s e = None) ->
+      (forall i r t, step s (IEnd i r t) = None) ->
+      (forall t, lp s t <> LShut) ->
+      forall c cr, getc s c = Some cr -> alive (lp s (cloop cr)) = true ->
+        done_or_unstarted (cpc cr) = true
+        \/ exists dl t s', waits_until cr dl /\ (now s < t)%N /\ (t <= dl)%N /\ step s (Adv t) = Some s').
+Proof.
+  intros H Hl. destruct (bounded_work _ _ _ _ H) as [Hb Ht].
+  split; [|split; [exact Ht|eapply maximal_trace_done_or_timer; eauto]].
+  unfold n_lib, n_iend, n_close, n_proxy_cancel_all in *. rewrite !n_ev_app in Hb.
+  rewrite (n_ev_all lib_event tr2 Hl) in Hb.
+  rewrite (n_ev_none is_iend lib_event tr2 Hl) in Hb by (intros [] He; try reflexivity; discriminate He).
+  rewrite (n_ev_none is_close lib_event tr2 Hl) in Hb by (intros [] He; try reflexivity; discriminate He).
+  rewrite (n_ev_none is_proxy_cancel_any lib_event tr2 Hl) in Hb
+    by (intros [] He; try reflexivity; try discriminate He; destruct r; [reflexivity|discriminate He]).
+  lia.
+Qed.
+
+(* ---- non-vacuity ---- *)
+(* caller 0 computes key 0 on loop 0, caller 1 waits for it from loop 1; both are answered *)
+Definition work_demo : list ev :=
+  [Get 0 0; Miss 0 0; Acq 0 0; Get 0 0; Miss 0 0; Rel 0 0; IStart 0 0 0%N;
+   Get 1 1; Miss 1 1; Acq 1 1; Get 1 1; Miss 1 1; Rel 1 1; XSub 1 1; Adv 5%N;
+   IEnd 0 0 5%N; SetC 0 0; Acq 0 0; Rel 0 0; Done 0 0 0 5%N; Proxy 0 1 0; Get 1 1; Done 1 0 0 5%N].
+
+Example work_demo_counts :
+  let s0 := init 2 [(0,0); (1,0)] in
+  exists s, run s0 work_demo = Some s
+    /\ n_lib work_demo = 21 /\ lib_of 0 work_demo = 11 /\ lib_of 1 work_demo = 10
+    /\ retries 1 s0 work_demo = 1 /\ proxies0 1 s0 work_demo = 1 /\ n_iend work_demo = 1
+    /\ n_proxy_cancel_all work_demo = 0 /\ total_timeouts 2 [(0,0); (1,0)] work_demo = 0
+    /\ map (fun cr => done_or_unstarted (cpc cr)) (callers s) = [true; true]
+    /\ step s (Adv 6%N) <> None.
+Proof. eexists. split; [vm_compute; reflexivity|]. vm_compute. repeat split. discriminate. Qed.
+
+(* the hypotheses of maximal_trace_all_done are satisfiable: in the state reached by work_demo no
+   library step and no IEnd is possible, no loop is in its shutdown run, nobody waits *)
+Example work_demo_maximal :
+  exists s, run (init 2 [(0,0); (1,0)]) work_demo = Some s
+    /\ (forall e, lib_or_proxy e = true -> step s e = None)
+    /\ (forall i r t, step s (IEnd i r t) = None)
+    /\ (forall t, lp s t <> LShut)
+    /\ (forall c cr, getc s c = Some cr -> lp s (cloop cr) = LRun -> dl_of (cpc cr) = None).
+Proof.
+  eexists. split; [vm_compute; reflexivity|]. split; [|split; [|split]].
+  - intros [] He; try discriminate He; unfold step; simpl.
+    all: try (destruct c as [|[|[|c]]]; simpl; try reflexivity;
+              try (destruct t as [|[|t]]; reflexivity);
+              try (destruct (tick =? 5)%N; reflexivity)).
+    all: try (destruct (tick =? 5)%N; destruct (i =? 1); reflexivity).
+  - intros [|[|i]] r t; unfold step; simpl; try reflexivity.
+    destruct (t =? 5)%N; simpl; reflexivity.
+  - intros [|[|t]]; discriminate.
+  - intros [|[|[|c]]] cr Hg; simpl in Hg; try discriminate Hg; injection Hg as <-; reflexivity.
+Qed.
